@@ -1261,6 +1261,186 @@ PARTIAL = ['with start/shutdown ramp profiles the on/off-pattern theorem (commit
 MODELLED = ['CHPAsset / Plant with and without start/shutdown ramp profiles incl. heat variants and _convert_ramp; CHPAsset_with_min_load_costs; costs_only of all three; empty windows']
 
 
+# ------------------------------------------------------------------------------------------- C12: change of the main time unit
+UNIT_S = {'s': 1, 'min': 60, 'h': 3600, 'd': 86400}
+RATE_ARGS = ('min_cap', 'max_cap', 'ramp', 'last_dispatch', 'running_costs', 'consumption_if_on', 'min_load_threshhold',
+             'min_load_costs', 'start_ramp_lower_bounds', 'start_ramp_upper_bounds', 'shutdown_ramp_lower_bounds',
+             'shutdown_ramp_upper_bounds', 'start_ramp_lower_bounds_heat', 'start_ramp_upper_bounds_heat',
+             'shutdown_ramp_lower_bounds_heat', 'shutdown_ramp_upper_bounds_heat')
+DURATION_ARGS = ('min_runtime', 'min_downtime', 'time_already_running', 'time_already_off')
+
+
+def unit_change_case(case, new_unit):
+    """the same asset re-expressed for the main time unit `new_unit`: every rate per time (whatever the code multiplies by
+    dt, dt[0] or step/unit: capacities, ramp, last dispatch, running costs, consumption if on, profile bounds, minimum-load
+    threshold and costs) divided by kappa = old unit / new unit, every duration in main time units multiplied by kappa;
+    all parameter forms (scalar, interval dict, numpy array, list, price key: the price array is rescaled under the same
+    key); per-volume quantities (prices, extra costs, take volumes, start costs, start fuel, efficiencies) untouched.
+    A `ramp_freq` of None means "the main time unit": it is made explicit (the OLD unit) in the rescaled case."""
+    old = case['grid']['unit']
+    kappa = Fraction(UNIT_S[old], UNIT_S[new_unit])
+    c2 = copy.deepcopy(case)
+    c2['grid']['unit'] = new_unit
+    c2['unit_s'] = UNIT_S[new_unit]
+    a, a2 = case['args'], c2['args']
+    used_keys = {}
+
+    def div(v):
+        return float(Fraction(float(v)) / kappa)
+
+    def rate(v, name):
+        if v is None:
+            return None
+        if isinstance(v, bool):
+            return v
+        if isinstance(v, (int, float)):
+            return div(v)
+        if isinstance(v, str):
+            used_keys.setdefault(v, []).append(name)
+            return v
+        if isinstance(v, (list, tuple)):
+            return [div(x) for x in v]
+        if isinstance(v, dict) and '$arr' in v:
+            return {'$arr': [div(x) for x in v['$arr']]}
+        if isinstance(v, dict) and 'values' in v:
+            vals = v['values']
+            return dict(v, values=[div(x) for x in vals] if isinstance(vals, list) else div(vals))
+        raise TypeError('unit_change_case: unsupported form of %s: %r' % (name, type(v)))
+    for k in RATE_ARGS:
+        if k in a:
+            a2[k] = rate(a[k], k)
+    for k in DURATION_ARGS:
+        if k in a:
+            a2[k] = float(Fraction(float(a[k])) * kappa)
+    for key, names in used_keys.items():
+        # a price key used for a rate: the series is the rate, rescale it (keys of the generator are per parameter; a key
+        # shared with a per-volume use cannot be rescaled consistently)
+        others = [n for n in ('price', 'extra_costs', 'start_costs', 'start_fuel', 'fuel_efficiency', 'conversion_factor_power_heat',
+                              'max_share_heat') if a.get(n) == key]
+        if others:
+            raise ValueError('unit_change_case: key %r is used for a rate and for %s' % (key, others))
+        if key in case['prices']:          # (a key missing in the price data is a malformed case: left alone)
+            c2['prices'][key] = [div(x) for x in case['prices'][key]]
+    if any(k.startswith(('start_ramp', 'shutdown_ramp')) for k in a) and a.get('ramp_freq') is None:
+        a2['ramp_freq'] = old
+    c2['exact'] = False
+    c2['unit_change'] = {'from': old, 'to': new_unit, 'kappa': [kappa.numerator, kappa.denominator]}
+    return c2
+
+
+def guard_stable(case, new_unit):
+    """the constructor guard on (time_already_running, time_already_off) is evaluated on the raw values, only when the raw
+    min_downtime > 1 (known finding F-06d): not invariant under a change of the unit unless it holds anyway or is skipped in
+    both units (`EAO.CHPUnit.GuardStable`)"""
+    a = case['args']
+    kappa = Fraction(UNIT_S[case['grid']['unit']], UNIT_S[new_unit])
+    md = Fraction(float(a.get('min_downtime', 0)))
+    xor = (a.get('time_already_off', 0) == 0) != (a.get('time_already_running', 0) == 0)
+    return xor or (md <= 1 and md * kappa <= 1)
+
+
+def real_problem(case):
+    """constructor + setup_optim_problem of the REAL code: {'problem': json} | {'error': class, 'stage'}"""
+    prices = np_prices(case)
+    with Quiet():
+        try:
+            asset = build_asset(case)
+        except Exception as e:
+            return {'error': err_class(e), 'stage': 'ctor'}
+        try:
+            tg = scen.make_grid(case['grid'])
+            op = asset.setup_optim_problem(prices, tg)
+            return {'problem': problem_json(op, name=case['name'], nodes=case['nodes'])}
+        except Exception as e:
+            return {'error': err_class(e), 'stage': 'setup'}
+
+
+def oracle_unit_change(case, new_unit=None):
+    """C12 for CHP / Plant / min-load on the REAL code: the problem built for the rescaled case must be the same problem
+    (c, l, u, rows, mapping; exact where the rescaled numbers are representable, else 1e-9 relative), and the same error
+    class otherwise.  Returns (violations, observed)."""
+    new_unit = new_unit or (case.get('unit_change') or {}).get('to')
+    c2 = unit_change_case(case, new_unit)
+    r1, r2 = real_problem(case), real_problem(c2)
+    facts = dict(cls=case['cls'], unit_from=case['grid']['unit'], unit_to=new_unit, freq=case['grid']['freq'],
+                 profiles=case.get('profiles'), guard_stable=guard_stable(case, new_unit))
+    obs = {'unit_pair': '%s->%s' % (case['grid']['unit'], new_unit)}
+    if 'error' in r1 or 'error' in r2:
+        e1, e2 = r1.get('error'), r2.get('error')
+        obs['errors'] = [e1, e2]
+        if e1 != e2:
+            kind = 'unit_change_guard' if not facts['guard_stable'] and 'assert' in (e1, e2) and 'ctor' in (r1.get('stage'), r2.get('stage')) else 'unit_change_error'
+            return [V('chp.unit_change', 'main time unit %s: %s; re-expressed for %s: %s' % (
+                case['grid']['unit'], 'error %s (%s)' % (e1, r1.get('stage')) if e1 else 'problem built', new_unit,
+                'error %s (%s)' % (e2, r2.get('stage')) if e2 else 'problem built'), kind=kind, **facts)], obs
+        return [], obs
+    p1, p2 = r1['problem'], r2['problem']
+    d = cmp_problem('unit_change', p2, p1, 0, aspects=('c', 'l', 'u', 'rows', 'mapping'))
+    if not d:
+        obs['equal'] = 'exact'
+        return [], obs
+
+    def clean(rows):
+        return [dict(r, coeffs=[[j, v] for j, v in r['coeffs'] if abs(Fraction(v)) > Fraction(1, 10 ** 12)]) for r in rows]
+    d = cmp_problem('unit_change', dict(p2, rows=clean(p2['rows'])), dict(p1, rows=clean(p1['rows'])), 1e-9, aspects=('c', 'l', 'u', 'rows', 'mapping'))
+    if not d:
+        obs['equal'] = 'tolerant'
+        return [], obs
+    obs['equal'] = 'no'
+    return [V('chp.unit_change', 'problem for main time unit %s (as "model") vs the original in %s (as "impl"): %s' % (new_unit, case['grid']['unit'], d[0]),
+              kind='unit_change_problem', n_differences=len(d), **facts)], obs
+
+
+UNIT_PAIRS = [('h', 'min'), ('min', 'h'), ('h', 'd'), ('d', 'h'), ('min', 's'), ('s', 'min')]
+UNIT_GRIDS = {'h': [('h', 3600), ('15min', 900), ('30min', 1800), ('2h', 7200)], 'min': [('15min', 900), ('h', 3600), ('5min', 300)],
+              'd': [('d', 86400), ('h', 3600), ('6h', 21600)], 's': [('15min', 900), ('min', 60)]}
+
+
+def gen_unit_change_case(rnd, tmax=8):
+    """a build-kind case (CHPAsset / Plant / CHPAsset_with_min_load_costs, with and without ramp profiles, every parameter
+    form) in a main time unit chosen from the unit pairs h<->min, h<->d, min<->s, carrying `unit_change: {to}`; the
+    generated numbers are per main time unit, so the case is first drawn for a grid of that unit"""
+    u_from, u_to = rnd.choice(UNIT_PAIRS)
+    freq, step_s = rnd.choice(UNIT_GRIDS[u_from])
+    for _ in range(50):
+        case = gen_case(rnd, kind='build', tmax=tmax)
+        a = case['args']
+        # re-seat the generated case on the wanted grid / unit: the generator's numbers are plain multiples of 1/8 and do
+        # not depend on the unit; only the grid (points, window dates) must be consistent, so regenerate until the grid fits
+        if case['grid']['freq'] == freq and case['grid']['unit'] == u_from:
+            break
+    else:
+        # draw with a forced grid
+        global GRIDS
+        saved = GRIDS
+        try:
+            GRIDS = [(freq, u_from, step_s, UNIT_S[u_from])]
+            case = gen_case(rnd, kind='build', tmax=tmax)
+        finally:
+            GRIDS = saved
+    a = case['args']
+    if 'freq' in a:
+        a.pop('freq')           # the asset's own freq is not the subject here
+    if not guard_stable(case, u_to) and rnd.random() < 0.85:
+        # keep most cases clear of known finding F-06d (guard on raw values): declare exactly one history
+        if rnd.random() < 0.5:
+            a['time_already_running'] = a.get('time_already_running') or 0.5
+            a.pop('time_already_off', None)
+        else:
+            a['time_already_off'] = a.get('time_already_off') or 0.5
+            a.pop('time_already_running', None)
+    case['unit_change'] = {'to': u_to}
+    case['kind'] = 'build'
+    return case
+
+
+THEOREMS_C12_CHP = [
+    ('EAO.Properties.C12CHP', 'EAO.C12.unit_change_chp', 'CHP / Plant: grid with every dt multiplied by k > 0, rates per time (ramp, last dispatch, running costs, consumption if on, raw min_cap) divided by k, durations (min runtime / downtime, time already running / off) multiplied by k, unit length u\' k = u: buildCHP returns the SAME problem (same error otherwise); hypotheses: running costs and consumption-if-on not given as price keys, and the raw-value constructor guard stable (known finding F-06d)'),
+    ('EAO.Properties.C12CHP', 'EAO.C12.unit_change_chp_steps', 'the step counts ceil(duration * unit / step) of a duration multiplied by k under the unit divided by k are equal'),
+    ('EAO.Properties.C12CHP', 'EAO.C12.unit_change_min_load', 'the same for the minimum-load-cost extension (threshold and costs divided by k, not price keys)'),
+]
+
+
 class ScratchDriver:
     """driver behind an arbitrary command (development: `lake env lean --run /tmp/.../Main.lean`)"""
 
